@@ -103,7 +103,8 @@ class PlainTrajectory:
         self.altitude = np.array([ALT[i % len(ALT)] for i in range(n)], dtype=dtype)
         self.true_airspeed = np.array([TAS[i % len(TAS)] for i in range(n)], dtype=dtype)
         self.ground_speed = self.true_airspeed
-        self.fuel_flow = np.array([FF[i % len(FF)] for i in range(n)])
+        off = 3 * nc + 5 * nd + n   # where in the fuel-flow lattice the flight starts: the zero and the above-take-off flow take part
+        self.fuel_flow = np.array([FF[(i + off) % len(FF)] for i in range(n)])
         self.flight_time = np.arange(n, dtype=dtype) * 600
         self.ground_distance = np.arange(n, dtype=dtype) * 100000
         self.n_climb, self.n_descent, self.n_cruise = nc, nd, n - nc - nd
@@ -130,7 +131,8 @@ def synthetic_traj(burn_g, nc, nd, start_fuel_kg=500.0, carrier='container', pro
     t.flight_level = t.altitude / 30.48
     t.true_airspeed = np.array([TAS[i % len(TAS)] for i in range(n)])
     t.ground_speed = t.true_airspeed
-    t.fuel_flow = np.array([FF[i % len(FF)] for i in range(n)])
+    off = 3 * nc + 5 * nd + n   # where in the fuel-flow lattice the flight starts: the zero and the above-take-off flow take part
+    t.fuel_flow = np.array([FF[(i + off) % len(FF)] for i in range(n)])
     t.flight_time = np.arange(n, dtype=float) * 600.0
     t.ground_distance = np.arange(n, dtype=float) * 1e5
     t.latitude = np.linspace(40, 41, n)
